@@ -958,6 +958,12 @@ def _load_data(rec, context):
                 cid = PixelComponentID(comp.axis, cid.label, parent=cid.parent)
                 comps[icomp] = (cid, comp)
 
+        if isinstance(comp, DerivedComponent):
+            # Some links (e.g. arithmetic ones) are re-created with a new
+            # anonymous target ID, but the link should point to the ID of the
+            # derived component (as it does when calling add_component_link)
+            comp.link.set_to_id(cid)
+
         result.add_component(comp, cid)
 
     assert result._world_component_ids == []
@@ -1404,6 +1410,12 @@ def _load_regiondata(rec, context):
             if not comp.world and not isinstance(cid, PixelComponentID):
                 cid = PixelComponentID(comp.axis, cid.label, parent=cid.parent)
                 comps[icomp] = (cid, comp)
+
+        if isinstance(comp, DerivedComponent):
+            # Some links (e.g. arithmetic ones) are re-created with a new
+            # anonymous target ID, but the link should point to the ID of the
+            # derived component (as it does when calling add_component_link)
+            comp.link.set_to_id(cid)
 
         result.add_component(comp, cid)
 
